@@ -307,6 +307,12 @@ class DBAPIProvider(object):
     def get_pool(provider, *args, **kwargs):
         return Pool(provider.dbapi_module, *args, **kwargs)
 
+    def detach_forked_connection(provider, connection):
+        # called in a forked child for a connection opened by the parent: keep the object alive, never touch it
+        pool = provider.pool
+        Pool.forked_connections.append((connection, getattr(pool, 'pid', None)))
+        if getattr(pool, 'con', None) is connection: pool.con = None
+
     def table_exists(provider, connection, table_name, case_sensitive=True):
         throw(NotImplementedError)
 
